@@ -31,7 +31,8 @@ def probe(pytrs):
     out.append(P.Tract.from_twprgesec('NE/4', '154', '97e', '14', config='s').trs)
     out.append(P.TRS.from_twprgesec('154', '97w', 1).trs)
     out.append(P.TRS.from_twprgesec(154, 97, 14).trs)
-    for s in ['154n97w14', '154s97e14', '154n97e14', '1154n97w14', 'XXXzXXXzXX', '', '154n97w', '154nXXXz14', '___z97w__']:
+    for s in ['154n97w14', '154s97e14', '154n97e14', '1154n97w14', 'XXXzXXXzXX', '', '154n97w', '154nXXXz14', '___z97w__',
+              '154N97W14', '154n97wxx', '154nxxxz14', 'xxxzxxxzxx', '___Z97w__']:
         t = P.TRS(s)
         out.append([t.trs, t.twp, t.rge, t.sec, t.twp_num, t.rge_num, t.sec_num, t.twp_undef, t.is_error(), t.pretty_twprge()])
         out.append(sorted(P.trs_to_dict(s).items(), key=str))
